@@ -360,6 +360,13 @@ class Ctx:
         cov["tlc_runs_total"] = len(self.tlc_runs)
         cov["known_findings_hit"] = self.known_hit
         cov["notes"] = self.notes
+        try:
+            sys.path.insert(0, os.path.join(ROOT, "checks"))
+            from additions import ADDITIONS
+            if self.pid in ADDITIONS:
+                cov["rule_additions"] = ADDITIONS[self.pid]
+        except Exception:
+            pass
         ev = {"property_id": self.pid, "tier": self.tier, "seed": self.seed, "level": level, "coverage": cov,
               "assumptions": assumptions or [], "wall_s": round(time.time() - self.t0, 2),
               "violations": len(self.violations)}
